@@ -99,7 +99,7 @@ extern "C" void h_db()
   ASSUME(null_term == 0 || null_term == 1);
   g_a0 = ctx.address; g_dc0 = ctx.data_count; g_K = nondet_int(); g_S = nondet_int(); g_ci = nondet_int();
   ASSUME(g_K >= 0 && g_K < (1 << 26) && g_S >= 0 && g_S < (1 << 26) && g_ci >= 0 && g_ci < 3);
-  g_ncalls = 0; g_nstr = 0; g_ntok = 0; g_nbytes = 0; g_seq_ok = 1; g_dl_ok = 1; g_errors = 0;
+  g_ncalls = 0; g_nstr = 0; g_ntok = 0; g_nbytes = 0; g_seq_ok = 1; g_dl_ok = 1; g_errors = 0; g_range_errors = 0;
   g_khit = 0; g_shit = 0; g_zhit = 0; g_kres = 0; g_kval = 0; g_kpos = 0; g_spos = 0; g_slen = 0; g_lastres = 0; g_lastval = 0; g_nb_at_last = 0;
   g_cur_len = 0; g_cur_pos = 0; g_nulterm = null_term;
   g_p_address = &ctx.address; g_p_data_count = &ctx.data_count; g_p_pass = &ctx.pass;
@@ -139,6 +139,7 @@ extern "C" void h_db()
   else
   {
     OBL(g_errors > 0, "C05.db: failure is reported with a diagnostic");
+    if (g_range_errors > 0) OBL(g_ncalls > 0 && (g_lastval < -128 || g_lastval > 255), "C05.db: a range error is raised only for a value outside -128..255 (every documented value is accepted)");
     if (g_ncalls > 0 && g_lastres == 0 && (g_lastval < -128 || g_lastval > 255))
       OBL(g_nbytes == g_nb_at_last, "C05.db: out-of-range operand rejected with no byte written");
   }
